@@ -89,7 +89,7 @@ func (c17) Generate(r *simkit.Rand, tier string) any {
 			var acts []C17Action
 			for j, na := 0, r.Range(0, 3); j < na; j++ {
 				a := C17Action{Member: r.Intn(c.Members), Reason: simkit.Pick(r, "normal", "shutdown", "error")}
-				a.Kind = simkit.Pick(r, "exit", "exit", "exit", "kill", "stop", "stopforce", "stoptimeout", "busy")
+				a.Kind = simkit.Pick(r, "exit", "exit", "exit", "kill", "stop", "stopforce", "stoptimeout", "busy", "exit", "kill", "stop", "unload")
 				if a.Kind == "exit" || a.Kind == "kill" {
 					// one termination cause per member and round, so that the cause of each member's exit is known
 					if used[a.Member] {
@@ -520,6 +520,12 @@ func (c17) Run(e *simkit.Env, cc any) {
 							mu.Lock()
 							unloaded = true
 							mu.Unlock()
+							// unload succeeds only on a stopped application: nobody starts members
+							// meanwhile, so none may be registered the moment it has returned
+							if lm := liveMembers("main", ri); len(lm) > 0 {
+								e.Fail("C17/unloaded-while-members-run", "round %d: ApplicationUnload returned nil while member %d was still registered", ri, lm[0].idx)
+								return
+							}
 						}
 						e.Logf("action unload -> %v", err)
 					case "start":
